@@ -45,7 +45,11 @@ REQ_F = _H2_PRE + _H2_REQF + _h2f(6, 0, 0, bytes(8))
 _H2_RESPF = _h2f(1, 4, 1, bytes([0x88, 0x40, 5]) + b"x-srv" + bytes([2]) + b"v1" + bytes([0xbe, 0x0f, 0x27, 5]) + b"nginx")
 RESP_F = _h2f(4, 0, 0, b"") + _H2_RESPF + _h2f(0, 1, 1, b"body-f")
 HEADLEN = {REQ_E: len(_H2_PRE + _H2_REQ1), RESP_E: len(_h2f(4, 0, 0, b"") + _H2_RESP3), REQ_F: len(_H2_PRE + _H2_REQF), RESP_F: len(_h2f(4, 0, 0, b"") + _H2_RESPF)}
-PAIRS = [(REQ_A, RESP_A), (REQ_B, RESP_B), (REQ_C, RESP_C), (REQ_D, RESP_D), (REQ_E, RESP_E), (REQ_F, RESP_F)]
+# heads far longer than one Ethernet MTU (a 2.6 KB cookie, a long Set-Cookie): delivered whole (GRO / TSO captures, loopback, jumbo
+# frames put more than 1460 octets into one segment) or cut anywhere, the report is the same
+REQ_G = b"GET /big HTTP/1.1\r\nHost: big.example\r\nCookie: " + b"; ".join(b"k%03d=%s" % (i, b"v" * 18) for i in range(100)) + b"\r\nUser-Agent: big-agent/1.0\r\nAccept: */*\r\n\r\n"
+RESP_G = b"HTTP/1.1 200 OK\r\nServer: big-server\r\nSet-Cookie: session=" + b"s" * 1900 + b"; Path=/\r\nContent-Type: text/html\r\n\r\n" + b"<html>" + b"y" * 1500 + b"</html>"
+PAIRS = [(REQ_A, RESP_A), (REQ_B, RESP_B), (REQ_C, RESP_C), (REQ_D, RESP_D), (REQ_E, RESP_E), (REQ_F, RESP_F), (REQ_G, RESP_G)]
 
 
 def head_only(m):
@@ -106,8 +110,13 @@ def run(tier, v):
     for pi, (R, S) in enumerate(PAIRS):
         hl_c = len(head_only(R))
         isns = [(1000, 5000), ((1 << 31) - 40, (1 << 31) + 7), (M32 - 1, M32 - 2), (M32 - 1 - hl_c // 2, M32 - 1 - 20), (M32 - len(R) + 3, M32 - len(S)), (M32 - len(R) - 5, 77)]
+        # both messages whole, each in one segment, in both arrival orders
+        for (ic, is_) in isns[:2]:
+            pc, ps = cuts_to_pieces(len(R), []), cuts_to_pieces(len(S), [])
+            add(pi, ic, is_, pc, ps, [("c", 0), ("s", 0)])
+            add(pi, ic, is_, pc, ps, [("s", 0), ("c", 0)])
         # every 2-cut of the request, response in one piece; and vice versa
-        step = 1 if tier == "thorough" else 3
+        step = (1 if tier == "thorough" else 3) * (1 if len(R) < 1000 else 7)
         for c in range(1, len(R), step):
             for (ic, is_) in (isns if c % (7 * step) == 1 else isns[:1] + [isns[(c // step) % len(isns)]]):
                 pc, ps = cuts_to_pieces(len(R), [c]), cuts_to_pieces(len(S), [])
